@@ -9,11 +9,12 @@ open Proto Weights
       rsq   <nSel> <ak q-list> <src idx> <evt idx> <flat values q-list>
             -> sparse:<R_i q-list> dense:<R_i q-list>     the scatter-add as coded on the real index arrays / the dense form
       row   <sizes> <W> <Y row>                          -> a_jk row group slice by group slice (running index), the same with sliceBounds, and W*Y
-      wsob  <opa> <ns> <zb> <N> <nSel> <ak> <s values> <src idx> <evt idx> <b per selected event> <r2 values | ->
+      wsob  <opa> <ns> <zb> <N> <nSel> <dataset idx>:<K>:<a_jk table flat> <s values> <src idx> <evt idx> <b per selected event> <r2 values | ->
             -> none | <log Λ> <sum |terms|>      SourceWeighted(SigOverBkg [x ratio]) on the flat values array
       hist  <opa> <K> <W0> <fac per source> <J> {<N_j> <E_j> <R_j flat>} {A <Y base flat> | F | E <ns> | W <weights> <order> | C}
             (the yield of position k is base_jk * fac[source standing at k])
             -> the values of the E steps: the state machine `lowRun` (cached W, a_jk, f_j) on low-level operations
+      prow  <values>                          -> what fields p_1.. / p_1:gpidx.. of a row assigned from paramRow hold: <values> <indices>
       bld   <J> {<builder ids of group g>}     -> error | code:<J x G builder ids, x = unfilled> spec:<J x G builder ids>
       multi <opa> <ns> <K> <W> <Y flat> <J> {<N_j> <E_j> <R_j flat (K x E_j)>}   -> <log Λ> <f list> <sum |terms|>
 -/
@@ -85,8 +86,12 @@ def answer (line : String) : String :=
       let init := List.replicate W.length (0.0 / 0.0 : Float)
       let gs := List.zip (splitSizes sz W) (splitSizes sz Y)
       s!"{fListD fF (calcRow init gs)} {fListD fF (calcRowS init gs)} {fListD fF (List.zipWith (· * ·) W Y)}"
-  | ["wsob", opa, ns, zb, n, nsel, ak, sv, src, evt, b, r2] =>
-      let a := pList pF ak
+  | ["wsob", opa, ns, zb, n, nsel, tab, sv, src, evt, b, r2] =>
+      let a := match tab.splitOn ":" with
+        | [j, k, flat] =>
+            let fl := pList pF flat
+            akOfDataset (rowsOf (pN k) (fl.length / pN k) fl) (pN j)
+        | _ => []
       let srcI := pList pN src
       let evtI := pList pN evt
       let N := pN n
@@ -103,6 +108,12 @@ def answer (line : String) : String :=
           let sa := (Xs.map (fun X => (LLH.logLambdaI (pF opa) (pF ns) X).abs)).foldl (· + ·) 0
             + (LLH.pureBkgTerm N Xs.length (pF ns)).abs
           s!"{fF (LLH.llrOfRatios (pF opa) N (pF ns) Ri)} {fF sa}"
+  | ["prow", v] =>
+      let vals := pList pF v
+      let row := paramRow vals
+      let rd := (List.range vals.length).map (fun i => (readParam row i).getD (0.0 / 0.0))
+      let gp := (List.range vals.length).map (fun i => (readGpidx row i).getD (0.0 / 0.0))
+      s!"{fListD fF rd} {fListD fF gp}"
   | "bld" :: j :: rest =>
       let J := pN j
       let groups := rest.map (pList pN)
